@@ -50,6 +50,19 @@ pub struct Case {
     pub port: Option<u16>,
     pub behaviour: Behaviour,
     pub idx: u64,
+    /// extra request settings for the generic path (None: the three-path comparison without settings)
+    #[serde(default)]
+    pub extra: Option<ExtraCase>,
+}
+
+/// Extra request settings: each member given or left out (toggles 0 skip, 1 try, 2 enforce).
+#[derive(Debug, Clone, Serialize, Deserialize)]
+pub struct ExtraCase {
+    pub hostname: Option<String>,
+    pub protocol_version: Option<i32>,
+    pub players: Option<u8>,
+    pub rules: Option<u8>,
+    pub check: Option<bool>,
 }
 
 fn engine_sel(e: &gamedig::protocols::valve::Engine) -> EngineSel {
@@ -206,7 +219,7 @@ impl Prop for C14 {
          same scripted server is queried through (A) games::query_with_timeout_and_extra_settings, (B) the game's dedicated module function and (C) the protocol's \
          query function with the definition's parameters. Oracle (differential): identical connection destinations and request bytes in the same order, and equal \
          outcomes: the same error kind, or equal responses after the documented conversion (generic variant unwrapped; valve::Response flattened to game::Response). \
-         non-trivial = port omitted or a non-valid behaviour; distinct = digest of the case"
+         Extra request settings (each of host name, protocol version, gather players, gather rules, app-id check given or left out; all 32 combinations enumerated for six games, random otherwise): the generic path with them must send the same bytes and give the same outcome as the protocol function with the equivalent settings (documented defaults for the members left out; for minecraftjava also the module function), and for protocols that ignore them the same as the generic path without them. non-trivial = port omitted or a non-valid behaviour; distinct = digest of the case"
             .into()
     }
 
@@ -218,9 +231,32 @@ impl Prop for C14 {
 
     fn strategy(&self, _tier: Tier) -> BoxedStrategy<Case> {
         let ids: Vec<String> = scripted_game_ids().into_iter().map(|s| s.to_string()).collect();
-        (prop::sample::select(ids), prop::option::of(any::<u16>()), prop::sample::select(BEHAVIOURS.to_vec()), 0u64 .. 4096)
-            .prop_map(|(game, port, behaviour, idx)| Case { game, port, behaviour, idx })
-            .boxed()
+        let plain = (prop::sample::select(ids.clone()), prop::option::of(any::<u16>()), prop::sample::select(BEHAVIOURS.to_vec()), 0u64 .. 4096)
+            .prop_map(|(game, port, behaviour, idx)| Case { game, port, behaviour, idx, extra: None });
+        // games whose protocol uses extra settings are drawn more often
+        let mut weighted = ids.clone();
+        for id in &ids {
+            if matches!(family_of_game(id), Some(Family::Valve(_)) | Some(Family::Unreal2) | Some(Family::McJava) | Some(Family::McAuto)) {
+                weighted.push(id.clone());
+                weighted.push(id.clone());
+            }
+            if matches!(family_of_game(id), Some(Family::McJava) | Some(Family::McAuto)) {
+                for _ in 0 .. 20 {
+                    weighted.push(id.clone());
+                }
+            }
+        }
+        let extra = (
+            prop::option::of(prop_oneof![Just("gamedig".to_string()), Just("mc.example.org".to_string()), Just(String::new()), "[a-z0-9.-]{1,40}", "\\PC{1,12}"]),
+            prop::option::of(prop_oneof![Just(-1i32), Just(0), Just(47), Just(760), Just(i32::MAX), Just(i32::MIN), any::<i32>()]),
+            prop::option::of(0u8 .. 3),
+            prop::option::of(0u8 .. 3),
+            prop::option::of(any::<bool>()),
+        )
+            .prop_map(|(hostname, protocol_version, players, rules, check)| ExtraCase { hostname, protocol_version, players, rules, check });
+        let with_extra = (prop::sample::select(weighted), prop::option::of(any::<u16>()), prop::sample::select(BEHAVIOURS.to_vec()), 0u64 .. 4096, extra)
+            .prop_map(|(game, port, behaviour, idx, extra)| Case { game, port, behaviour, idx, extra: Some(extra) });
+        prop_oneof![1 => plain, 1 => with_extra].boxed()
     }
 
     fn enumerated<'a>(&'a self, tier: Tier, shard: usize, nshards: usize) -> Box<dyn Iterator<Item = Case> + 'a> {
@@ -232,8 +268,26 @@ impl Prop for C14 {
             for port in [None, Some(40_123u16)] {
                 for b in BEHAVIOURS {
                     for idx in 0 .. nstates {
-                        v.push(Case { game: id.to_string(), port, behaviour: b, idx });
+                        v.push(Case { game: id.to_string(), port, behaviour: b, idx, extra: None });
                     }
+                }
+            }
+        }
+        // extra settings: every given / left-out combination of the five members, for one game per protocol that uses them and one that ignores them
+        for game in ["teamfortress2", "killingfloor", "minecraftjava", "minecraft", "q3a", "ohd"] {
+            if !GAMES.contains_key(game) {
+                continue;
+            }
+            for mask in 0u8 .. 32 {
+                for (k, b) in [Behaviour::Valid, BEHAVIOURS[3], BEHAVIOURS[5]].into_iter().enumerate() {
+                    let extra = ExtraCase {
+                        hostname: (mask & 1 != 0).then(|| "mc.example.org".to_string()),
+                        protocol_version: (mask & 2 != 0).then_some(760),
+                        players: (mask & 4 != 0).then_some(((mask as usize + k) % 3) as u8),
+                        rules: (mask & 8 != 0).then_some(((mask as usize / 3 + k) % 3) as u8),
+                        check: (mask & 16 != 0).then_some(mask % 3 == 0),
+                    };
+                    v.push(Case { game: game.to_string(), port: if mask % 2 == 0 { None } else { Some(40_123) }, behaviour: b, idx: mask as u64 % nstates, extra: Some(extra) });
                 }
             }
         }
@@ -322,6 +376,72 @@ impl Prop for C14 {
         }
         let Some(pe) = protocol_entry(game) else { return o };
         let ip = doc_ip();
+        if let Some(x) = &case.extra {
+            // ---- extra request settings: the generic path with them == the protocol function (and, for Java, the module) with the equivalent settings
+            use gamedig::protocols::types::{ExtraRequestSettings, GatherToggle};
+            let tog = |v: u8| match v { 0 => GatherToggle::Skip, 1 => GatherToggle::Try, _ => GatherToggle::Enforce };
+            let mut extra = ExtraRequestSettings::default();
+            if let Some(h) = &x.hostname { extra = extra.set_hostname(h.clone()); }
+            if let Some(v) = x.protocol_version { extra = extra.set_protocol_version(v); }
+            if let Some(p) = x.players { extra = extra.set_gather_players(tog(p)); }
+            if let Some(r) = x.rules { extra = extra.set_gather_rules(tog(r)); }
+            if let Some(c) = x.check { extra = extra.set_check_app_id(c); }
+            o.label(format!("extra-settings:{}", match fam { Family::Valve(_) => "valve", Family::Unreal2 => "unreal2", Family::McJava | Family::McAuto => "minecraft-java", _ => "ignored-by-protocol" }));
+            o.label(format!("extra given: host={} version={} players={} rules={} check={}", x.hostname.is_some(), x.protocol_version.is_some(), x.players.is_some(), x.rules.is_some(), x.check.is_some()));
+            o.nontrivial = true;
+            let generic = |extra: Option<ExtraRequestSettings>| {
+                gamedig::query_with_timeout_and_extra_settings(g, &ip, case.port, None, extra).map(|r| {
+                    let mut j = serde_json::to_value(r.as_original()).unwrap_or(Value::Null);
+                    crate::util::normalise_sets(&mut j);
+                    j
+                })
+            };
+            let run_a = run_scripted(server_for(game, fam, case.behaviour, case.idx), || generic(Some(extra.clone())));
+            let c_port = case.port.unwrap_or(g.default_port);
+            let addr = std::net::SocketAddr::new(ip, c_port);
+            let rs = gamedig::games::minecraft::RequestSettings { hostname: x.hostname.clone().unwrap_or_else(|| "gamedig".into()), protocol_version: x.protocol_version.unwrap_or(-1) };
+            let json_of = |r: gamedig::GDResult<gamedig::games::minecraft::JavaResponse>| r.map(|v| { let mut j = serde_json::to_value(&v).unwrap_or(Value::Null); crate::util::normalise_sets(&mut j); j });
+            // equivalent call at protocol level
+            let (run_c, what) = match (&pe, game) {
+                (Entry::Valve { engine, .. }, _) => {
+                    // documented defaults of valve::GatheringSettings: Try, Try, check
+                    let e = Entry::Valve { engine: *engine, players: x.players.unwrap_or(1), rules: x.rules.unwrap_or(1), check: x.check.unwrap_or(true) };
+                    (run_scripted(server_for(game, fam, case.behaviour, case.idx), || e.call_json_opt(&ip, Some(c_port), None)), "protocol function with the same gather settings")
+                }
+                (Entry::Unreal2 { .. }, _) => {
+                    // documented defaults of unreal2::GatheringSettings: players Try, mutators and rules Enforce
+                    let e = Entry::Unreal2 { players: x.players.unwrap_or(1), rules: x.rules.unwrap_or(2) };
+                    (run_scripted(server_for(game, fam, case.behaviour, case.idx), || e.call_json_opt(&ip, Some(c_port), None)), "protocol function with the same gather settings")
+                }
+                (Entry::McJava, _) => (run_scripted(server_for(game, fam, case.behaviour, case.idx), || json_of(gamedig::games::minecraft::protocol::query_java(&addr, None, Some(rs.clone())))), "protocol function with the same request settings"),
+                (Entry::McAuto, _) => (run_scripted(server_for(game, fam, case.behaviour, case.idx), || json_of(gamedig::games::minecraft::protocol::query(&addr, None, Some(rs.clone())))), "protocol function with the same request settings"),
+                // every other protocol ignores the extra settings
+                _ => (run_scripted(server_for(game, fam, case.behaviour, case.idx), || generic(None)), "generic path without extra settings"),
+            };
+            let (wa, wc) = (wire_of(&run_a), wire_of(&run_c));
+            let detail = |info: Value| json!({"game": game, "port": case.port, "behaviour": format!("{:?}", case.behaviour), "extra": format!("{x:?}"), "compared_with": what, "info": info,
+                "generic": {"result": run_a.ended.kind_str(), "wire": wa}, "other": {"result": run_c.ended.kind_str(), "wire": wc}});
+            if wa != wc {
+                o.fail(format!("C14|{game}|extra settings|wire differs|generic vs {}", if what.starts_with("protocol") { "protocol" } else { "generic without settings" }), detail(json!({})));
+                return o;
+            }
+            let ra = outcome_of(&run_a).map(unwrap_variant);
+            let rc = outcome_of(&run_c).map(|v| if what.starts_with("generic") { unwrap_variant(v) } else { v });
+            if ra != rc {
+                o.fail(format!("C14|{game}|extra settings|outcome differs|generic vs {}", if what.starts_with("protocol") { "protocol" } else { "generic without settings" }), detail(json!({"generic": ra.as_ref().map(brief).map_err(|e| e.clone()), "other": rc.as_ref().map(brief).map_err(|e| e.clone())})));
+                return o;
+            }
+            // the Java module takes request settings too
+            if game == "minecraftjava" {
+                let run_b = run_scripted(server_for(game, fam, case.behaviour, case.idx), || json_of(gamedig::games::minecraft::query_java(&ip, case.port, Some(rs.clone()))));
+                if wire_of(&run_b) != wa {
+                    o.fail(format!("C14|{game}|extra settings|wire differs|generic vs module"), detail(json!({"module_wire": wire_of(&run_b)})));
+                } else if outcome_of(&run_b) != ra {
+                    o.fail(format!("C14|{game}|extra settings|outcome differs|generic vs module"), detail(json!({})));
+                }
+            }
+            return o;
+        }
         let a_entry = Entry::Generic { game: game.to_string(), extra: None };
         let b_entry = Entry::Module { game: game.to_string() };
         let run_a = run_scripted(server_for(game, fam, case.behaviour, case.idx), || a_entry.call_json_opt(&ip, case.port, None));
